@@ -53,7 +53,7 @@ var props = map[string]propCfg{
 		Reach:     []string{"expect-404", "expect-400", "expect-pass", "strict-500", "strict-pass", "pass-through", "fault-seen-by-validator", "shape-silent", "shape-status-only", "shape-write-only", "shape-write-then-status", "shape-multi-status", "shape-status-pieces", "shape-informational-first", "shape-flush-first", "shape-status-write-flush", "handler_abort", "client_write_err", "reqbody_eio", "reqbody_reset", "reqbody_unexpected_eof"}},
 	"C15": {Sim: "conc", Race: true, Quick: tierCfg{Runs: 4800, Workers: 16, Budget: 300 * time.Second, Seeds: 1},
 		Thorough:  tierCfg{Runs: 120000, Workers: 16, Budget: 18 * time.Minute, Seeds: 5},
-		Rule:      "one run = 2-6 caller goroutines with 1-4 library calls each (FindRoute on both routers, ValidateRequest over JSON/form/multipart/text bodies with defaults on/off, multi-error, custom regex compilers, reading auth callbacks; ValidateResponse; Schema.VisitJSON/IsMatching in every mode; strict and non-strict middleware ServeHTTP; openapi3gen.NewSchemaRefForValue on compiled-in and per-run reflect.StructOf types) sharing one loaded+validated document (patterns carry the run marker: cold caches), both routers and two middleware instances, executed in a -race build under the zzsimrt scheduler with a seeded policy (serial, uniform-random switch probability 1/3..1/1000, biased towards sites touching shared state, PCT depth 1-3, round-robin quantum 1..1000) and sorted or seeded-permuted map iteration. Oracles: A no race report with a kin-openapi frame in both stacks / no runtime fatal; B every call's outcome equals the same call alone on a fresh document; C no deadlock on library locks, all calls return within the step cap; D the shared document serialises identically before and after. Non-trivial = at least one context switch happened inside library code; distinct = distinct (caller op-kind multiset, hash of the switch sequence projected to (from-site, to-site)) pairs; distinct_cover_items = distinct (site where one caller was stopped, site where the next one resumed) pairs over all context switches inside library code.",
+		Rule:      "one run = 2-6 caller goroutines with 1-4 library calls each (FindRoute on both routers, ValidateRequest over JSON/form/multipart/text bodies with defaults on/off, multi-error, custom regex compilers, reading auth callbacks; ValidateResponse; Schema.VisitJSON/IsMatching in every mode; strict and non-strict middleware ServeHTTP; openapi3gen.NewSchemaRefForValue on compiled-in and per-run reflect.StructOf types) sharing one loaded+validated document (patterns carry the run marker: cold caches), both routers and two middleware instances, executed in a -race build under the zzsimrt scheduler with a seeded policy (serial, uniform-random switch probability 1/3..1/1000, biased towards sites touching shared state, PCT depth 1-3, round-robin quantum 1..1000) and sorted or seeded-permuted map iteration. Oracles: A no race report with a kin-openapi frame in both stacks / no runtime fatal; B every call's verdict (accepted / rejected by which part; for accepted calls also the forwarded request, value or body the caller gets back) equals the same call alone on a fresh document; C no deadlock on library locks, all calls return within the step cap; D the shared document serialises identically before and after. Non-trivial = at least one context switch happened inside library code; distinct = distinct (caller op-kind multiset, hash of the switch sequence projected to (from-site, to-site)) pairs; distinct_cover_items = distinct (site where one caller was stopped, site where the next one resumed) pairs over all context switches inside library code.",
 		DesignRef: "§3 SIM-CONC",
 		Reach:     []string{"switch-inside-library", "calls-overlapped", "lock-contention", "map-order-permuted", "patterns-cold-at-start", "first-use-in-process", "callback-crash-inside-call", "policy-random", "policy-biased", "policy-pct", "policy-rr", "policy-serial"}},
 	"C11": {Sim: "loader", Quick: tierCfg{Runs: 40000, Workers: 16, Budget: 180 * time.Second, Seeds: 1},
@@ -73,12 +73,12 @@ var props = map[string]propCfg{
 		Reach:     []string{"body-parties-1", "body-parties-2", "auth-read-all", "auth-read-part", "body-defaults-applied", "default-query", "default-header", "default-cookie", "skip-identity", "idempotence-checked", "second-validation", "req-in-flight", "getbody-checked", "fault-run", "reqbody_eio", "reqbody_reset", "reqbody_unexpected_eof"}},
 	"C07": {Sim: "stream", Quick: tierCfg{Runs: 48000, Workers: 16, Budget: 180 * time.Second, Seeds: 1},
 		Thorough:  tierCfg{Runs: 800000, Workers: 16, Budget: 9 * time.Minute, Seeds: 5},
-		Rule:      "same runs as C13 biased to documents with security requirements; oracle R3: verdict and failing-part set of validation #1 equal those of a neutral run (same bytes as one in-memory chunk, non-reading callback with the same outcomes) whatever the chunk plan, GetBody/ContentLength variant and the callbacks' reading behaviour (none / part / all / close / body-dependent signature check); callbacks invoked with the same (scheme, scopes) sequence and always finding the full body; a stream error observed by the library is never followed by acceptance. Clause-scoped: the security/parameter truth table itself is not decided.",
+		Rule:      "same runs as C13 biased to documents with security requirements; oracle R3: verdict and failing-part set of validation #1 equal those of a neutral run (same bytes as one in-memory chunk, non-reading callback with the same outcomes) whatever the chunk plan, GetBody/ContentLength variant and the callbacks' reading behaviour (none / part / all / close / body-dependent signature check); callbacks asked only about (scheme, scopes) pairs of the requirement list in effect and always finding the full body; a stream error observed by the library is never followed by acceptance where the operation declares a body and it is validated. Clause-scoped: the security/parameter truth table itself is not decided.",
 		DesignRef: "§3 SIM-STREAM, §4 C07",
 		Reach:     []string{"security-model-true", "security-model-false", "auth-read-all", "auth-read-part", "body-parties-2", "fault-run", "reqbody_eio"}},
 	"C08": {Sim: "stream", Quick: tierCfg{Runs: 48000, Workers: 16, Budget: 180 * time.Second, Seeds: 1},
 		Thorough:  tierCfg{Runs: 800000, Workers: 16, Budget: 9 * time.Minute, Seeds: 5},
-		Rule:      "one run = ValidateResponse over a response-body stream (seeded chunk plan, optional mid-body fault followed by a fault-free response) for a seeded response map (exact / class / default entries, with or without content, schema, required header), status (incl. 204/301/304/307/308), method (POST/HEAD), headers and body, options (multi-error, exclude body, strict status). Oracles: afterwards input.Body is non-nil and yields the original bytes to EOF on every return path; the verdict equals that over the same bytes in memory; a stream error observed by the library is never followed by acceptance. Clause-scoped: selection of the entry and schema checks are not decided. Distinct = distinct (entry count, status, method, chunk-plan length, fault, options) tuples.",
+		Rule:      "one run = ValidateResponse over a response-body stream (seeded chunk plan, optional mid-body fault followed by a fault-free response) for a seeded response map (exact / class / default entries, with or without content, schema, required header), status (incl. 204/301/304/307/308), method (POST/HEAD), headers and body, options (multi-error, exclude body, strict status). Oracles: afterwards input.Body is non-nil and yields the original bytes to EOF on every return path; the verdict equals that over the same bytes in memory; a stream error observed by the library is never followed by acceptance where the verdict depends on the body (the same validation over the intact bytes reads them, or rejects them). Clause-scoped: selection of the entry and schema checks are not decided. Distinct = distinct (entry count, status, method, chunk-plan length, fault, options) tuples.",
 		DesignRef: "§3 SIM-STREAM, §4 C08",
 		Reach:     []string{"resp-body-consumed", "resp-early-return", "resp-readable-checked", "resp-history", "respbody_eio", "respbody_reset", "respbody_unexpected_eof"}},
 }
